@@ -17,8 +17,15 @@
    1. `accumulator_exists`, `perm_vec_is_accumulator`, `perm_identities_vanish`
    2. `gate_identity_vanishes`
    3. `numerator_divisible`, `quotient_degree_bound`, `quotient_fits`
-   4. `verifier_equation_holds`
-   5. `completeness_algebraic`, `completeness_witness`
+   4. `verifier_equation_holds`, `verifier_accepts`, `verifier_accepts_legacy` (the model verifier's
+      OWN grouped MSM `verifyTerms` vanishes on the honest prover's data, V2/V3 and V1)
+   5. `completeness_algebraic`, `completeness_witness`, `completeness_witness_self`
+   6. `completeness_model_polys` (the polynomials the specification prover builds — `ifft` columns,
+      `blindPoly` wires and accumulator of the model's `permVec`, ANY blinders — satisfy every
+      hypothesis of `completeness_algebraic`, for a layout whose own witness satisfies all rows),
+      `quotient_in_prove_complete` (the `tPoly` that the model's `prove` interpolates from
+      `quotientEvals` IS the quotient `T`; it has `≤ 4n + 7` coefficients, passes the `len > 7n` test
+      for `n ≥ 3`, and its shares fit the commit key)
 
   How the pieces compose into "satisfied ⇒ proves and verifies": by `completeness_witness` the
   model's own notions (`sysSat` / `rowHolds` on the padded table, `copyViolation = none`) give the
@@ -31,7 +38,10 @@
   profile, so the quotient has at most `4n + 7` coefficients and the four shares fit the commit key
   (`quotient_fits` + C01 `commitments_fit`); and for EVERY `z, v, v_w, u` the batched opening check
   in the trapdoor view — the field equation of `Props/C02.forged_evaluation_rejected`, which C20
-  `pairing_check_iff` turns into the pairing check — holds for the honest openings.
+  `pairing_check_iff` turns into the pairing check — holds for the honest openings; in the code's
+  own grouping (`verifier_accepts`): `[x]·Σ left + Σ right = O` for the term lists of the model's
+  `verifyTerms`, the condition under which `VerifierM.verify` returns `.ok` (C03
+  `accept_iff_equation`), once every point is read as `[q(x)]g`.
 
   What is NOT covered (stated, not hidden):
 
@@ -44,10 +54,11 @@
   (N3) that the model's `prove` computes exactly these polynomials: wires / accumulator /
        openings are tied by `ProverMask.prove_commitments_blinded`, `prove_openings_masked`
        (C06), the quotient shares by `ProverMask.split_recombine` (hypothesis `hq` below) and C05
-       `quotient_in_prove` (coset values of `Num/Z_H`); the remaining glue — `tPoly` of `prove` IS
-       the `T` of `numerator_divisible` (coset interpolation of `8n` values of a polynomial of degree
-       `≤ 4n + 6 < 8n`), and `lagrangeAndPi` computes `L₁(z)`, `PI(z)` (hypotheses `hl1`, `hpi`, as in
-       C02) — is not stated as one theorem;
+       `quotient_in_prove` (coset values of `Num/Z_H`) and `quotient_in_prove_complete` below
+       (`tPoly` of `prove` IS the `T` of `numerator_divisible`); that `lagrangeAndPi` computes
+       `L₁(z)`, `PI(z)` are the hypotheses `hl1`, `hpi` (as in C02; C03/C12 `lagrangeAndPi_some`).
+       The walk through the `match` chain of `prove` that identifies its local arrays with the
+       arguments of these theorems (they are syntactically the same expressions) is not done here;
   (N4) the opening witness of the model prover is the quotient of `r + Σ vʲ pⱼ` where `r` differs
        from the verifier's `D − u·Z` by a constant; dividing by `X − z` kills constants, so the
        witness polynomial is the `agg … /ₘ (X − C z)` used here.
@@ -60,9 +71,11 @@
      coefficients: the capacity `n + 7` of the trimmed key is tight, with the permutation term
      `Z·∏(w + β·k·X + γ)` of degree `(n+2) + 4(n+1)` as the extremal one.
    * `4n + 7 ≤ 7n` only for `n ≥ 3`: for domains of size `n ≤ 2` the code's rule
-     `tPoly.length > 7n ⇒ circuitUnsatisfied` can misfire on a SATISFIED circuit with generic
-     blinders (`deg T = 4n + 6`, length `4n + 7 > 7n`).  Whether `n ≤ 2` is reachable through
-     `Composer::initialized` + `compile` is a question for the differential harness.
+     `tPoly.length > 7n ⇒ circuitUnsatisfied` can misfire on a SATISFIED circuit whenever the bound
+     is attained (`deg T = 4n + 6`, length `4n + 7 > 7n`; that generic blinders attain it is NOT
+     proved here — only the upper bound is).  `Composer::initialized` already has four
+     gates (`n ≥ 4`), so this is not reachable through the public API of the crate; the model's
+     `prove` accepts any composer, hence the hypothesis `3 ≤ n` in `quotient_in_prove_complete`.
    * No `SelReduced` hypothesis is needed in the completeness direction (`gate_identity_vanishes`
      holds for arbitrary, possibly non-canonical, selectors), unlike C05 `gate_sum_zero_iff`.
    * `completeness_witness` needs canonical witness values (`c.val x < R`): `rowHolds` is evaluated
@@ -75,6 +88,10 @@ import Plonk.Proofs.CompletenessDegree
 import Plonk.Proofs.CompletenessVerifier
 import Plonk.Proofs.CompletenessProver
 import Plonk.Proofs.CompletenessExamples
+import Plonk.Proofs.CompletenessAccept
+import Plonk.Proofs.CompletenessQuotient
+import Plonk.Proofs.CompletenessModelPolys
+import Plonk.Proofs.CompletenessExamples2
 
 namespace Plonk.Props.C01Complete
 open Plonk Polynomial Plonk.Quot Plonk.Perm Plonk.Sound Plonk.Complete
@@ -428,5 +445,244 @@ theorem completeness_witness_self (c : Composer) (h : c.sysSat = true) :
 example : cLay.sysSat = true ∧ cLay.paddedSize = 2 ∧ (∀ x, cLay.val x < R) ∧
     WireInterp (-1) 2 cLay cP := by
   refine ⟨by decide +kernel, by decide +kernel, c_val_lt, cWire⟩
+
+/-! ### 4'. the model verifier's own equation -/
+
+/-- **`verifier_accepts`** (current equation, V2/V3).  `right`, `left` are the term lists of the
+    model's OWN `verifyTerms` — `VerifierM.verify` returns `.ok` iff
+    `[x]·(Σ left) + Σ right = O` (C03 `accept_iff_equation`).  Every point is interpreted by the
+    commitment `ι' c = [ι c (x)]g` of the polynomial it commits to: verifier key and accumulator
+    (`AgmRep`), wires, opened key polynomials, the generator `↦ 1` and the two opening witnesses `↦`
+    the quotients of the aggregated polynomials by `X − z`, `X − ωz` (`OpenRep`; (N4)).  With true
+    evaluations, `Num = T·(Xⁿ − 1)` and the shares recombining to `T`, the combination vanishes:
+    the honest proof satisfies the verifier's equation, for every trapdoor `x`, every `g`, all
+    challenges.  Missing link to `verify = .ok`: (N1) only. -/
+theorem verifier_accepts {G : Type*} [AddCommGroup G] [Module F G] (g : G) (x : F) (ι : G1 → F[X])
+    (vk : VKey) (g1 : G1) (d : Domain) (roots pis : List Nat) (p : ProofM) (ch : Challenges)
+    (l1 piEval : Nat) (right left : List (Nat × G1))
+    (hlp : d.lagrangeAndPi roots pis ch.z = some (l1, piEval))
+    (hc : verifyTerms vk g1 d roots pis p ch false = some (right, left))
+    (n : ℕ) (P : ProverPolys F) (A : AgmRep ι vk p P)
+    (E : TrueEvals (toF d.groupGen) (toF ch.z) p.ev P)
+    (hzh : toF (d.evaluateVanishing ch.z) = toF ch.z ^ n - 1)
+    (hl1 : toF l1 = (L1P n).eval (toF ch.z)) (hpi : toF piEval = P.pi.eval (toF ch.z))
+    (T : F[X]) (hq : quotientOf ι p n = T)
+    (hT : NumP (toF d.groupGen) n P ⟨toF ch.beta, toF ch.gamma, toF ch.alpha⟩
+      ⟨toF ch.rangeSep, toF ch.logicSep, toF ch.fixedSep, toF ch.varSep⟩ = T * (X ^ n - 1))
+    (O : OpenRep ι vk g1 p P
+      (agg (toF ch.v) 12 (openPolys (linPoly ι vk p ch (d.evaluateVanishing ch.z) l1) P 0) /ₘ
+        (X - C (toF ch.z)))
+      (agg (toF ch.vw) 4 (openPolys (linPoly ι vk p ch (d.evaluateVanishing ch.z) l1) P 1) /ₘ
+        (X - C (toF d.groupGen * toF ch.z)))) :
+    x • evalTerms (fun c => KzgMath.commit x g (ι c)) left +
+      evalTerms (fun c => KzgMath.commit x g (ι c)) right = 0 :=
+  verify_msm_zero g x ι vk g1 d roots pis p ch l1 piEval right left hlp hc n P A E hzh hl1 hpi T hq
+    hT O
+
+/-- non-vacuity: a domain of `Domain.new? 2`, `z = 5`, the polynomials `exP2` (two addition rows,
+    `T = 0`), a key and a proof with nine distinct points interpreted by `aIota`: every hypothesis
+    of `verifier_accepts` holds -/
+example : ∃ (d : Domain) (l1 piEval : Nat) (right left : List (Nat × G1)) (W W' : F[X]),
+    let ch : Challenges := { (default : Challenges) with z := 5 }
+    d.lagrangeAndPi [] [] ch.z = some (l1, piEval) ∧
+    verifyTerms aKey (.aff 1 0) d [] [] aProof ch false = some (right, left) ∧
+    AgmRep (aIota W W') aKey aProof exP2 ∧
+    TrueEvals (toF d.groupGen) (toF ch.z) aProof.ev exP2 ∧
+    toF (d.evaluateVanishing ch.z) = toF ch.z ^ 2 - 1 ∧
+    toF l1 = (L1P 2).eval (toF ch.z) ∧ toF piEval = exP2.pi.eval (toF ch.z) ∧
+    quotientOf (aIota W W') aProof 2 = 0 ∧
+    NumP (toF d.groupGen) 2 exP2 ⟨toF ch.beta, toF ch.gamma, toF ch.alpha⟩
+      ⟨toF ch.rangeSep, toF ch.logicSep, toF ch.fixedSep, toF ch.varSep⟩ = 0 * (X ^ 2 - 1) ∧
+    OpenRep (aIota W W') aKey (.aff 1 0) aProof exP2
+      (agg (toF ch.v) 12 (openPolys (linPoly (aIota W W') aKey aProof ch
+        (d.evaluateVanishing ch.z) l1) exP2 0) /ₘ (X - C (toF ch.z)))
+      (agg (toF ch.vw) 4 (openPolys (linPoly (aIota W W') aKey aProof ch
+        (d.evaluateVanishing ch.z) l1) exP2 1) /ₘ (X - C (toF d.groupGen * toF ch.z))) :=
+  a_hyps_gen false 12
+
+/-- **the same for the legacy V1 equation** (`verify_legacy`: only `a, b, c, d, σ₁, σ₂, σ₃` are opened
+    at `z` besides `D − u·Z`) -/
+theorem verifier_accepts_legacy {G : Type*} [AddCommGroup G] [Module F G] (g : G) (x : F)
+    (ι : G1 → F[X]) (vk : VKey) (g1 : G1) (d : Domain) (roots pis : List Nat) (p : ProofM)
+    (ch : Challenges) (l1 piEval : Nat) (right left : List (Nat × G1))
+    (hlp : d.lagrangeAndPi roots pis ch.z = some (l1, piEval))
+    (hc : verifyTerms vk g1 d roots pis p ch true = some (right, left))
+    (n : ℕ) (P : ProverPolys F) (A : AgmRep ι vk p P)
+    (E : TrueEvals (toF d.groupGen) (toF ch.z) p.ev P)
+    (hzh : toF (d.evaluateVanishing ch.z) = toF ch.z ^ n - 1)
+    (hl1 : toF l1 = (L1P n).eval (toF ch.z)) (hpi : toF piEval = P.pi.eval (toF ch.z))
+    (T : F[X]) (hq : quotientOf ι p n = T)
+    (hT : NumP (toF d.groupGen) n P ⟨toF ch.beta, toF ch.gamma, toF ch.alpha⟩
+      ⟨toF ch.rangeSep, toF ch.logicSep, toF ch.fixedSep, toF ch.varSep⟩ = T * (X ^ n - 1))
+    (O : OpenRep ι vk g1 p P
+      (agg (toF ch.v) 8 (openPolys (linPoly ι vk p ch (d.evaluateVanishing ch.z) l1) P 0) /ₘ
+        (X - C (toF ch.z)))
+      (agg (toF ch.vw) 4 (openPolys (linPoly ι vk p ch (d.evaluateVanishing ch.z) l1) P 1) /ₘ
+        (X - C (toF d.groupGen * toF ch.z)))) :
+    x • evalTerms (fun c => KzgMath.commit x g (ι c)) left +
+      evalTerms (fun c => KzgMath.commit x g (ι c)) right = 0 :=
+  verify_msm_zero_legacy g x ι vk g1 d roots pis p ch l1 piEval right left hlp hc n P A E hzh hl1
+    hpi T hq hT O
+
+/-- non-vacuity: the same instance, with the witness at `z` built from eight polynomials -/
+example : ∃ (d : Domain) (l1 piEval : Nat) (right left : List (Nat × G1)) (W W' : F[X]),
+    let ch : Challenges := { (default : Challenges) with z := 5 }
+    d.lagrangeAndPi [] [] ch.z = some (l1, piEval) ∧
+    verifyTerms aKey (.aff 1 0) d [] [] aProof ch true = some (right, left) ∧
+    AgmRep (aIota W W') aKey aProof exP2 ∧
+    TrueEvals (toF d.groupGen) (toF ch.z) aProof.ev exP2 ∧
+    toF (d.evaluateVanishing ch.z) = toF ch.z ^ 2 - 1 ∧
+    toF l1 = (L1P 2).eval (toF ch.z) ∧ toF piEval = exP2.pi.eval (toF ch.z) ∧
+    quotientOf (aIota W W') aProof 2 = 0 ∧
+    NumP (toF d.groupGen) 2 exP2 ⟨toF ch.beta, toF ch.gamma, toF ch.alpha⟩
+      ⟨toF ch.rangeSep, toF ch.logicSep, toF ch.fixedSep, toF ch.varSep⟩ = 0 * (X ^ 2 - 1) ∧
+    OpenRep (aIota W W') aKey (.aff 1 0) aProof exP2
+      (agg (toF ch.v) 8 (openPolys (linPoly (aIota W W') aKey aProof ch
+        (d.evaluateVanishing ch.z) l1) exP2 0) /ₘ (X - C (toF ch.z)))
+      (agg (toF ch.vw) 4 (openPolys (linPoly (aIota W W') aKey aProof ch
+        (d.evaluateVanishing ch.z) l1) exP2 1) /ₘ (X - C (toF d.groupGen * toF ch.z))) :=
+  a_hyps_gen true 8
+
+/-! ### 6. the quotient inside `prove` -/
+
+/-- **`quotient_in_prove_complete`.**  The two domains of `prove` (`d` of size `n ≥ 2`, `d8` of size
+    `8n`), arbitrary coefficient lists for the key / wire / accumulator / public-input polynomials
+    (`polysOf`), whose polynomials satisfy the hypotheses of `completeness_algebraic` for the layout
+    `lay` and have the honest lengths (`≤ n + 2` coefficients, accumulator `≤ n + 3`: C06
+    `blindPoly_length_le`).  Then for all `α` and separation challenges the list
+    `tPoly = ofCoeffs (d8.cosetIfft (quotientEvals …))` that `prove` computes — on exactly the arrays
+    `compile` / `prove` build, as in C05 `quotient_in_prove` — represents the quotient `T` of
+    `numerator_divisible`; it has at most `4n + 7` entries; for `n ≥ 3` it passes the test
+    `tPoly.length > 7n ⇒ circuitUnsatisfied`; and whenever `splitQuotient` succeeds (it fails, with
+    the Rust slice panic, only if `tPoly.length ≤ 3n`: degenerate blinders, C01
+    `splitQuotient_none_iff`) the four shares are accepted by `commit` for a key of `n + 7`
+    points. -/
+theorem quotient_in_prove_complete (m : Nat) (d d8 : Domain) (hd : Domain.new? m = some d)
+    (hd8 : Domain.new? (8 * d.size) = some d8) (hn2 : 2 ≤ d.size)
+    (sel sigma : Array Poly) (aP bP cP dP zP piP : Poly)
+    (vh linE : Array Nat) (hvh : vh = (d8.vanishingOverCoset d.size).toArray)
+    (hlin : linE = (d8.cosetFft [0, 1]).toArray)
+    (hsel : ∀ j, (sel.getD j []).length ≤ d.size + 2)
+    (hsig : ∀ j, (sigma.getD j []).length ≤ d.size + 2)
+    (ha : aP.length ≤ d.size + 2) (hb : bP.length ≤ d.size + 2) (hc : cP.length ≤ d.size + 2)
+    (hdd : dP.length ≤ d.size + 2) (hpi : piP.length ≤ d.size + 2) (hzl : zP.length ≤ d.size + 3)
+    (lay : Composer) (hn : lay.gates.size ≤ d.size)
+    (I : KeyInterp (toF d.groupGen) d.size lay (polysOf sel sigma aP bP cP dP zP piP))
+    (hrows : ∀ i < d.size, rowOKP (toF d.groupGen) d.size lay (polysOf sel sigma aP bP cP dP zP piP) i)
+    (hconst : ∀ p q, SameClass lay p q →
+      wireVal (toF d.groupGen) (polysOf sel sigma aP bP cP dP zP piP) p =
+        wireVal (toF d.groupGen) (polysOf sel sigma aP bP cP dP zP piP) q)
+    (beta gamma : Nat)
+    (hγ : toF gamma ∉ denBadM (toF d.groupGen) d.size lay (polysOf sel sigma aP bP cP dP zP piP)
+      (toF beta))
+    (hz : AccInterp (toF d.groupGen) d.size lay (polysOf sel sigma aP bP cP dP zP piP) (toF beta)
+      (toF gamma))
+    (alpha rSep lSep fSep vSep : Nat) :
+    let tPoly := Poly.ofCoeffs (d8.cosetIfft
+      (quotientEvals d8.size (sel.map fun p => (d8.cosetFft p).toArray)
+        (sigma.map fun p => (d8.cosetFft p).toArray) linE (cosetEvals d8 aP) (cosetEvals d8 bP)
+        (cosetEvals d8 cP) (cosetEvals d8 dP) (cosetEvals d8 zP) (d8.cosetFft piP).toArray vh
+        (batchInversion ((vh.toList).take 8)).toArray
+        (batchInversion (linE.toList.map fun e => fsub e 1)).toArray (fmul d8.sizeInv 8)
+        beta gamma alpha rSep lSep fSep vSep))
+    ∃ T : F[X],
+      NumP (toF d.groupGen) d.size (polysOf sel sigma aP bP cP dP zP piP)
+        ⟨toF beta, toF gamma, toF alpha⟩ ⟨toF rSep, toF lSep, toF fSep, toF vSep⟩ =
+          T * (X ^ d.size - 1) ∧
+      toPoly tPoly = T ∧ tPoly.length ≤ 4 * d.size + 7 ∧
+      (3 ≤ d.size → ¬ tPoly.length > 7 * d.size) ∧
+      ∀ (k : PKey), d.size + 7 ≤ k.ckLen → ∀ (b12 b13 b14 : Nat) (tl tm th tf : Poly),
+        splitQuotient d.size tPoly b12 b13 b14 = some (tl, tm, th, tf) →
+        ∃ r, commit4 k tl tm th tf = .ok r := by
+  intro tPoly
+  have hw := Domain.new?_WF m d hd
+  obtain ⟨-, -, T, hT⟩ := numerator_divisible hw.size_pos hw.prim lay hn _ I hrows hconst (toF beta)
+    (toF gamma) hγ hz (toF alpha) ⟨toF rSep, toF lSep, toF fSep, toF vSep⟩
+  have hP := polysDeg2_of_lengths sel sigma aP bP cP dP zP piP (d.size + 1) (d.size + 2) hsel hsig ha
+    hb hc hdd hpi hzl
+  have hdeg := (natDegree_quotient_honest _ d.size hw.size_pos _ _ _ hP T hT).2
+  obtain ⟨h1, h2, h3⟩ := tPoly_length_le m d d8 hd hd8 sel sigma aP bP cP dP zP piP vh linE hvh hlin
+    beta gamma alpha rSep lSep fSep vSep T hT hdeg hn2
+  refine ⟨T, hT, h1, h2, h3, fun k hk b12 b13 b14 tl tm th tf hs => ?_⟩
+  exact (ProverMask.commitments_fit k d hw hk).2.1 _ b12 b13 b14 tl tm th tf hs h2
+
+/-- non-vacuity: the two domains exist for `n = 2`, and coefficient lists for `exP2` (`T = 0`) with
+    the honest lengths -/
+example : ∃ d d8, Domain.new? 2 = some d ∧ Domain.new? (8 * d.size) = some d8 ∧ 2 ≤ d.size ∧
+    (∀ j, (qSel.getD j []).length ≤ d.size + 2) ∧ (∀ j, (qSigma.getD j []).length ≤ d.size + 2) ∧
+    ∀ (ω : F) (β γ α : F) (s : Seps F),
+      NumP ω d.size (polysOf qSel qSigma [1] [2] [R - 3] [] [1] []) ⟨β, γ, α⟩ s =
+        0 * (X ^ d.size - 1) := by
+  obtain ⟨d, d8, hd, hd8, h2⟩ := q_domains
+  refine ⟨d, d8, hd, hd8, h2, fun j => ?_, fun j => ?_, fun ω β γ α s => q_numerator ω _ β γ α s⟩
+  · exact le_trans (q_sel_len j) (by omega)
+  · exact le_trans (q_sigma_len j) (by omega)
+
+/-- **`completeness_model_polys`.**  Domain `d` of `Domain.new?` (size `n`); layout `lay` with at most
+    `n` gates and canonical witness values, every row of whose padded table holds (next row cyclic;
+    `lay.sysSat` when `n = lay.paddedSize`) — its copy constraints hold by construction
+    (`copyViolation lay lay = none`); dense public inputs `piS` and sigma values `sigE` of the layout
+    (what `compile` interpolates, C05Perm `sigma_column_evals`); `z` the vector returned by the
+    model's `permVec` on the wire columns of the table for the challenges `β, γ` (it returns one
+    iff `γ ∉ denBadM β`, `perm_vec_is_accumulator`); ARBITRARY blinders (at most two per wire, three
+    for the accumulator, as `prove` draws them).  Then the polynomials of the specification prover
+    (`modelPolys`: `ifft` columns, `blindPoly`) satisfy EVERY hypothesis of `completeness_algebraic`
+    and have the honest degree profile; consequently, for every `α` and all separation challenges,
+    the numerator is `T·(Xⁿ − 1)` with `deg T ≤ 4n + 6`. -/
+theorem completeness_model_polys (m : Nat) (d : Domain) (hd : Domain.new? m = some d)
+    (lay : Composer) (hn : lay.gates.size ≤ d.size) (hval : ∀ x, lay.val x < R)
+    (hrows : ∀ i < d.size, rowHolds (lay.gateAt i) (lay.rowVals i).a (lay.rowVals i).b
+      (lay.rowVals i).c (lay.rowVals i).d (lay.rowVals ((i + 1) % d.size)).a
+      (lay.rowVals ((i + 1) % d.size)).b (lay.rowVals ((i + 1) % d.size)).d (lay.piAt i) = true)
+    (piS : List Nat) (hpil : piS.length = d.size)
+    (hpi : ∀ i < d.size, toF (piS.getD i 0) = toF (lay.piAt i))
+    (sigE : List (List Nat)) (hsl : ∀ j < 4, (sigE.getD j []).length = d.size)
+    (hs : ∀ col < 4, ∀ i < d.size,
+      toF ((sigE.getD col []).getD i 0) = idLabel (toF d.groupGen) (sigmaFn lay (col, i)))
+    (beta gamma : Nat) (z : List Nat)
+    (hz : permVec d.size d.elements (tableCol d.size lay (·.a)) (tableCol d.size lay (·.b))
+      (tableCol d.size lay (·.c)) (tableCol d.size lay (·.d)) sigE beta gamma = some z)
+    (ba bb bc bd bz : List Nat) (ha : ba.length ≤ 2) (hb : bb.length ≤ 2) (hc : bc.length ≤ 2)
+    (hdd : bd.length ≤ 2) (hbz : bz.length ≤ 3) :
+    let P := modelPolys d lay.gateAt (tableCol d.size lay (·.a)) (tableCol d.size lay (·.b))
+      (tableCol d.size lay (·.c)) (tableCol d.size lay (·.d)) piS sigE z ba bb bc bd bz
+    (0 < d.size ∧ IsPrimitiveRoot (toF d.groupGen) d.size ∧
+      KeyInterp (toF d.groupGen) d.size lay P ∧
+      (∀ i < d.size, rowOKP (toF d.groupGen) d.size lay P i) ∧
+      (∀ p q, SameClass lay p q → wireVal (toF d.groupGen) P p = wireVal (toF d.groupGen) P q) ∧
+      toF gamma ∉ denBadM (toF d.groupGen) d.size lay P (toF beta) ∧
+      AccInterp (toF d.groupGen) d.size lay P (toF beta) (toF gamma) ∧
+      PolysDeg2 P (d.size + 1) (d.size + 2)) ∧
+    ∀ (α : F) (s : Seps F), ∃ T : F[X],
+      NumP (toF d.groupGen) d.size P ⟨toF beta, toF gamma, α⟩ s = T * (X ^ d.size - 1) ∧
+      T.natDegree ≤ 4 * d.size + 6 ∧
+      ∀ zz : F, (NumP (toF d.groupGen) d.size P ⟨toF beta, toF gamma, α⟩ s).eval zz =
+        T.eval zz * (zz ^ d.size - 1) := by
+  intro P
+  have hB := model_polys_complete m d hd lay hn hval hrows piS hpil hpi sigE hsl hs beta gamma z hz
+    ba bb bc bd bz ha hb hc hdd hbz
+  obtain ⟨h0, hω, I, hr, hcst, hγ, hacc, hdeg⟩ := hB
+  refine ⟨⟨h0, hω, I, hr, hcst, hγ, hacc, hdeg⟩, fun α s => ?_⟩
+  obtain ⟨-, -, T, hT⟩ := numerator_divisible h0 hω lay hn P I hr hcst (toF beta) (toF gamma) hγ hacc
+    α s
+  exact ⟨T, hT, (natDegree_quotient_honest _ d.size h0 P _ _ hdeg T hT).2,
+    fun zz => eval_of_quotient _ T hT zz⟩
+
+/-- non-vacuity: the layout `cLay` (two rows on the same four witnesses, `σ ≠ id`) on a domain of
+    `Domain.new? 2`, `β = 1`, a suitable `γ`: the model's `permVec` returns a vector and every
+    hypothesis holds (the blinder lists are arbitrary) -/
+example : ∃ (d : Domain) (gamma : Nat) (z : List Nat), Domain.new? 2 = some d ∧
+    cLay.gates.size ≤ d.size ∧ (∀ x, cLay.val x < R) ∧
+    (∀ i < d.size, rowHolds (cLay.gateAt i) (cLay.rowVals i).a (cLay.rowVals i).b
+      (cLay.rowVals i).c (cLay.rowVals i).d (cLay.rowVals ((i + 1) % d.size)).a
+      (cLay.rowVals ((i + 1) % d.size)).b (cLay.rowVals ((i + 1) % d.size)).d (cLay.piAt i) = true) ∧
+    ([0, 0] : List Nat).length = d.size ∧
+    (∀ i < d.size, toF (([0, 0] : List Nat).getD i 0) = toF (cLay.piAt i)) ∧
+    (∀ j < 4, ((mSig d cLay).getD j []).length = d.size) ∧
+    (∀ col < 4, ∀ i < d.size, toF (((mSig d cLay).getD col []).getD i 0) =
+      idLabel (toF d.groupGen) (sigmaFn cLay (col, i))) ∧
+    permVec d.size d.elements (tableCol d.size cLay (·.a)) (tableCol d.size cLay (·.b))
+      (tableCol d.size cLay (·.c)) (tableCol d.size cLay (·.d)) (mSig d cLay) 1 gamma = some z :=
+  m_hyps
 
 end Plonk.Props.C01Complete
